@@ -77,6 +77,10 @@ Nested ==
     \cup { Struct(r, <<h, P("u8")>>) : r \in {"C"}, h \in SmallH \cup HEnums }
     \cup { Struct("Rust", <<Str, Vec("Vec", h)>>) : h \in SmallH }
     \cup { Map("BTreeMap", P("u8"), h) : h \in SmallH }
+    \cup { Bx(k, h) : k \in {"Box", "Arc"}, h \in SmallH }
+    \cup { Tup(<<h, P("u8")>>) : h \in SmallH }
+    \cup { Res(h, Str) : h \in SmallH } \cup { Res(P("u8"), h) : h \in SmallH }
+    \cup { Opt(Vec("Vec", h)) : h \in SmallH }
     \* packed structs with TWO versioned fields inside a sequence: the bulk path must be off at every version at which the
     \* wire fields differ from the memory fields, whatever the order of declaration
     \cup { Vec("Vec", MkStruct("C", <<h, g>>)) : h \in TwoHist, g \in TwoHist }
